@@ -71,6 +71,8 @@ def gen_cases(rng, tier):
             # odd lengths too: the FFT-ordered frequency grid has no Nyquist bin there (fftshift/ifftshift differ)
             n = rng.choice([32, 33, 48, 63, 64, 95, 96, 128] if tier == "quick" else [32, 33, 64, 100, 101, 127, 128, 160])
             sps, R = rng.choice([(16, 10e9), (8, 10e9), (16, 40e9)])
+            # the grid may also be configured through fs (non-integer fs/R included): the dispersion operator lives on gv.fs
+            g = rng.choice([None, None, None, {"R": 10e9, "fs": 125e9}, {"R": 28e9, "fs": 150e9}, {"fs": 96.5e9}, {"sps": 8, "fs": 200e9}])
             L = rng.uniform(1, 100)
             gamma = rng.choice([0.0, rng.uniform(0.2, 5.0), rng.uniform(0.2, 5.0)])
             P = 10 ** rng.uniform(-6, np.log10(0.5))
@@ -81,14 +83,14 @@ def gen_cases(rng, tier):
             nl = gamma * P * L
             if nl / phi > (300 if tier == "quick" else 1200):
                 phi = min(0.1, nl / (300 if tier == "quick" else 1200))
-            fs = sps * R
+            fs = sps * R if g is None else g["fs"]
             b2 = rng.choice([0.0, rng.uniform(-25, 25), rng.uniform(-25, 25)])
             b3 = rng.choice([0.0, 0.0, rng.uniform(-0.2, 0.2)])
             alpha = rng.choice([0.0, rng.uniform(0.0, 0.5), rng.uniform(0.0, 0.5)])
             cases.append({"kind": "run", "n": n, "npol": npol, "sps": sps, "R": R, "L": L, "gamma": gamma, "P": P, "phi": phi,
                           "b2": b2, "b3": b3, "alpha": alpha, "shape": rng.choice(["random", "pulses", "nrz"]),
                           "lead0": rng.choice([0, 0, 2, 5]), "ypow": rng.choice([0.0, 0.3, 1.0]), "seed": rng.getrandbits(32),
-                          "dtype": rng.choice(["complex", "complex", "float"])})
+                          "dtype": rng.choice(["complex", "complex", "float"]), "gv": g})
     # convergence to the NLSE (first order in phi_max) against the independent fixed-step reference: a few small cases
     # in the quick tier, pure third-order dispersion included; many in the thorough tier
     for i in range(4 if tier == "quick" else 24):
@@ -183,7 +185,7 @@ def run_impl(case):
         with warnings.catch_warnings():
             warnings.simplefilter("ignore")
             gv.clean()
-            gv(sps=case["sps"], R=case["R"])
+            gv(**(case.get("gv") or {"sps": case["sps"], "R": case["R"]}))
             res["fs"] = float(gv.fs)
             a = _make(case)
             x = optical_signal(a, n_pol=case["npol"])
@@ -330,6 +332,9 @@ def oracle(case, res):
     if not res["finite"]:
         v.append(("C08:non-finite", f"output contains NaN/inf {tag}"))
         return v
+    fs_cfg = case["gv"]["fs"] if case.get("gv") else case["sps"] * case["R"]
+    if not (abs(res["fs"] - fs_cfg) <= 1e-9 * fs_cfg):
+        v.append(("C08:fs", f"gv.fs={res['fs']} but the configured sampling rate is {fs_cfg} {tag}"))
     want_shape = [case["n"]] if case["npol"] == 1 else [2, case["n"]]
     if res["cls"] != "optical_signal" or res["npol"] != case["npol"] or res["shape"] != want_shape:
         v.append(("C08:shape", f"layout not preserved: {res['cls']} n_pol={res['npol']} shape={res['shape']} {tag}"))
@@ -369,6 +374,9 @@ def features(case, res):
     f = ["status=" + str(res.get("status")), f"npol={case['npol']}", "shape=" + case["shape"],
          "lead0" if case["lead0"] else "no-lead0", "lossy" if case["alpha"] > 0 else "lossless",
          "gamma0" if case["gamma"] == 0 else "gamma>0", "nodisp" if (case["b2"] == 0 and case["b3"] == 0) else "disp"]
+    f.append("n-odd" if case["n"] % 2 else "n-even")
+    f.append("gv=" + ("+".join(sorted(case["gv"])) if case.get("gv") else "sps+R"))
+    f.append("dtype=" + case.get("dtype", "complex"))
     if res.get("status") == "ok":
         s = res["steps"]
         f.append("steps=0" if s == 0 else "steps=1" if s == 1 else "steps=2-10" if s <= 10 else "steps=11-100" if s <= 100 else "steps>100")
